@@ -16,6 +16,7 @@ package redisemu
 // queues the terminate state so that a connection busy with a command (e.g. blocked) is torn down too
 //@ ghost gTerminateQueued bool
 //@ ghost gSocketClosed bool
+//@ ghost gUnblockCalls int
 //@ func clientCxn.queueStateChange
 //@ trusted sends the state change to the connection's goroutine
 //@ requires cc != nil
@@ -33,11 +34,13 @@ package redisemu
 //@ mode int
 //@ requires cc != nil
 //@ ghostentry gCloseRequests = gCloseRequests + 1
-//@ modifies cc->closing ghost.gCloseRequests ghost.gTerminateQueued ghost.gSocketClosed ghost.mutexHeld
+//@ modifies cc->closing clientState.blocked clientState.unblockPending ghost.gCloseRequests ghost.gTerminateQueued ghost.gSocketClosed ghost.gUnblockCalls ghost.gPosted ghost.mutexHeld
+//@ requires free has.state: cc.cs != nil
 //@ ensures cc.closing
 //@ ensures counted: gCloseRequests == old(gCloseRequests) + 1
 //@ ensures [C20,C12] terminate.queued: !old(cc.closing) ==> gTerminateQueued
 //@ ensures [C20] socket.closed: !old(cc.closing) && cc.waiting ==> gSocketClosed
+//@ ensures [C12] unblocked: !old(cc.closing) ==> gUnblockCalls == old(gUnblockCalls) + 1
 //@ ensures [C20] once: old(cc.closing) ==> gTerminateQueued == old(gTerminateQueued) && gSocketClosed == old(gSocketClosed)
 
 //@ func clientCxn.IsCloseRequested
@@ -57,7 +60,7 @@ package redisemu
 //@ ghostentry gCloseRequests = 0
 //@ ghostafter "eng.server.Close()" : gListenerCloses = gListenerCloses + 1
 //@ ghostafter "eng.cancelFn()" : gCancels = gCancels + 1
-//@ modifies eng->server eng->cancelFn eng->cxns clientCxn.closing ghost.gListenerCloses ghost.gCancels ghost.gCloseRequests ghost.gTerminateQueued ghost.gSocketClosed ghost.mutexHeld
+//@ modifies eng->server eng->cancelFn eng->cxns clientCxn.closing ghost.gListenerCloses ghost.gCancels ghost.gCloseRequests ghost.gTerminateQueued ghost.gSocketClosed ghost.gUnblockCalls ghost.gPosted clientState.blocked clientState.unblockPending ghost.mutexHeld
 //@ loop 1 invariant [C20] asked: gCloseRequests == ri1 && gListenerCloses == ite(old(eng.server) != nil, 1, 0) && gCancels == ite(old(eng.cancelFn) != nil, 1, 0) && eng.cxns == old(eng.cxns)
 //@ loop 1 invariant [C20] closing: all(k, 0, ri1, eng.cxns[k].closing)
 //@ ensures [C20] listener.closed: eng.server == nil && gListenerCloses == ite(old(eng.server) != nil, 1, 0)
@@ -72,7 +75,7 @@ package redisemu
 //@ requires eng != nil && cc != nil
 //@ requires free tracked: all(k, 0, len(eng.cxns), eng.cxns[k] != nil)
 //@ ghostentry gCloseRequests = 0
-//@ modifies eng->cxns clientCxn.closing ghost.gCloseRequests ghost.gTerminateQueued ghost.gSocketClosed ghost.mutexHeld
+//@ modifies eng->cxns clientCxn.closing clientState.blocked clientState.unblockPending ghost.gCloseRequests ghost.gTerminateQueued ghost.gSocketClosed ghost.gUnblockCalls ghost.gPosted ghost.mutexHeld
 //@ loop 1 invariant [C20] kept: len(live) <= ri1 && all(k, 0, len(live), live[k] != nil && !live[k].closing) && gCloseRequests == 0
 //@ ensures [C20] late: eng.server == nil ==> gCloseRequests == 1 && cc.closing && eng.cxns == old(eng.cxns)
 //@ ensures [C20] tracked: eng.server != nil ==> len(eng.cxns) >= 1 && eng.cxns[len(eng.cxns)-1] == cc && gCloseRequests == 0
